@@ -1,7 +1,9 @@
 use crate::engine::Tier;
 use serde_json::Value;
 
+pub mod c01;
 pub mod c03;
+pub mod c04;
 
 pub fn bind_or_die() {
     let r = crate::bind::run();
@@ -24,7 +26,9 @@ pub fn run(id: &str, tier: Tier) -> i32 {
             }
             if r.failures.is_empty() { 0 } else { 2 }
         }
+        "C01" => { bind_or_die(); c01::run(tier) }
         "C03" => { bind_or_die(); c03::run(tier) }
+        "C04" => { bind_or_die(); c04::run(tier) }
         _ => {
             eprintln!("unknown check {}", id);
             2
@@ -37,7 +41,9 @@ pub fn run(id: &str, tier: Tier) -> i32 {
 pub fn replay(id: &str, v: &Value) -> i32 {
     let case = &v["case"];
     let f: fn(&Value) -> Option<(String, bool)> = match id {
+        "C01" => c01::replay,
         "C03" => c03::replay,
+        "C04" => c04::replay,
         _ => {
             eprintln!("no replay for {}", id);
             return 2;
